@@ -151,14 +151,23 @@ def c09_1(R):
       "A SeqNr is built from an integer literal only in the two don't-care header fields of socket.rs (ack_nr of our SYN, seq_nr of an RST) - plus Default; the connection code contains no literal sequence numbers.")
 def c09_2(R):
     F = R.facts
-    allowed = {"socket::Dispatcher::on_control", "socket::Dispatcher::try_send_rst"}
+    # don't-care header fields: ack_nr of a SYN (nothing received yet), seq_nr of a RESET
+    dont_care = {"ST_SYN": "ack_nr", "ST_RESET": "seq_nr"}
     n = 0
     for b in F.bodies(lambda n_: not n_.startswith(SEQ_BODIES)):
         for t in b.calls():
             if call_matches(t, ("Into::into", "From::from")) and t.args and t.args[0].kind == "const" and "seq_nr::SeqNr" in (t.callee_full or "") + (t.resolved or ""):
                 n += 1
-                if owner_fn(b) in allowed:
-                    R.ok("literal-seqnr-sites", owner_fn(b), "literal %s in a don't-care header field" % t.args[0].scalar)
+                uses = []
+                for s in b.stmts():
+                    if s.rv.kind == "agg" and s.rv.j.get("adt") == "raw::UtpHeader":
+                        names = s.rv.j["fields"]
+                        ht = classify(b, s.rv.ops[names.index("htype")])
+                        for i_, o_ in enumerate(s.rv.ops):
+                            if t.dest is not None and copy_root(b, o_) == t.dest.local:
+                                uses.append((ht.split("::")[-1], names[i_]))
+                if uses and all(dont_care.get(h) == f for h, f in uses):
+                    R.ok("literal-seqnr-sites", owner_fn(b), "literal %s only in %s" % (t.args[0].scalar, ", ".join("%s.%s" % u for u in uses)))
                 else:
                     R.fail([owner_fn(b), "literal-SeqNr", str(t.args[0].scalar)], "a literal sequence number appears in connection logic", where=t.where(), instance="literal-seqnr-sites")
         for s in b.stmts():
